@@ -28,6 +28,11 @@ f + alpha (sum - 2d f) in working precision is ~6 eps_t max|f| in 3-D and 0.62 e
 on flat fields (seed 1 thorough), which would leave only 6x headroom with 4 eps_t.  Fields: noise,
 spikes, checkerboard, flat (constant + few-ulp ripple: stresses the slack), constant.
 
+Workload diversity (added after the seeded-change campaign): every third simulator of a shard is a SIBLING of the previous
+one (same grid shape and precision, other dx / nu / CFL) and the previous object is queried again afterwards;
+``compute_stable_timestep`` is called with keyword, positional and default argument; the bare function gets dx as python
+float and (real_t = float32) a float64 velocity array; the diffusion kernels get alpha alternately as python float and real_t.
+
 Known genuine defect on the pinned tree (F2): the diffusion limit is ``0.9 dx^2/(2d)/nu + tol`` with
 tol = 10 eps, so nu dt/dx^2 = 0.225 + 10 eps nu/dx^2 when the step is diffusion-limited, e.g.
 float32, dx = 1/256, nu = 0.5: 0.264 > 0.25 -> mechanism ``diffusion-limit-exceeded``.  Silent with
@@ -86,6 +91,14 @@ REQUIRE = {
     "maxprinciple_cells": 20000,
     "maxprinciple_at_limit": 12,
     "ring_cells_compared": 4000,
+    "sims_sibling_same_shape_other_parameters": 8,
+    "sims_rechecked_after_sibling": 8,
+    "sims_first_axis_longer_than_x": 8,
+    "dt_calls_default_argument": 20, "dt_calls_positional": 50, "dt_calls_keyword": 50,
+    "fn_calls_dx_python_float": 200,
+    "fn_calls_float64_velocity_float32_real_t": 100,
+    "maxprinciple_alpha_python_float": 30, "maxprinciple_alpha_real_t": 30,
+    "maxprinciple_steps_first_axis_longer_than_x": 20,
 }
 SIM_KINDS = ("passive2d", "passive3d", "ns2d", "ns3d")
 VEL_KINDS = ("zero", "uniform", "uniform_neg", "spike", "noise", "noise_abs", "tiny")
@@ -256,8 +269,30 @@ def _run_sim(sh, rec):
     rng = util.rng_for(seed, ID, "sim", kind, sh["dtype"], sh["idx"])
     d = 2 if kind.endswith("2d") else 3
     nobj = (10 if d == 2 else 8) if tier == "quick" else (16 if d == 2 else 12)
+    prev = None
+    ncall = [0]
+
+    def call_dt(sim_, p):
+        """the three documented call styles: keyword, positional, default argument"""
+        ncall[0] += 1
+        if p == 1.0 and ncall[0] % 2:
+            rec.count("dt_calls_default_argument")
+            return sim_.compute_stable_timestep()
+        if ncall[0] % 3 == 0:
+            rec.count("dt_calls_positional")
+            return sim_.compute_stable_timestep(p)
+        rec.count("dt_calls_keyword")
+        return sim_.compute_stable_timestep(dt_prefac=p)
+
     for k in range(nobj):
         shape = util.shape2d(rng, 6, 28) if d == 2 else util.shape3d(rng, 6, 14)
+        sibling = k % 3 == 2 and prev is not None
+        if sibling:
+            # sibling object: SAME grid shape and precision as the previous simulator of this process, other dx / nu / CFL
+            shape = prev[1]["shape"]
+            rec.count("sims_sibling_same_shape_other_parameters")
+        if shape[0] > shape[-1]:
+            rec.count("sims_first_axis_longer_than_x")
         nu, dx_t, cfl = _draw_params(rng, d, real_t)
         if kind.startswith("passive") and k % 4 == 1:
             dx_t = float(rng.uniform(1.3, 4.0))  # dx > 1: a step that scales like nu dt/dx instead of nu dt/dx^2 overshoots
@@ -274,8 +309,15 @@ def _run_sim(sh, rec):
             vel = _velocity(rng, vk, d, shape, real_t)
             sim.velocity_field[...] = vel
             meta = {**meta0, "velocity": vk}
-            _check_dt(rec, lambda p: (sim.compute_stable_timestep(dt_prefac=p) if p != 1.0 or rng.random() < 0.5 else sim.compute_stable_timestep()),
-                      sim.velocity_field, d, dx, nu, cfl, real_t, rng, (kind, d, sh["dtype"]), meta)
+            _check_dt(rec, lambda p: call_dt(sim, p), sim.velocity_field, d, dx, nu, cfl, real_t, rng, (kind, d, sh["dtype"]), meta)
+        if sibling:
+            # ... and the FIRST object again after its sibling was built and used
+            psim, pmeta, pdx, pnu, pcfl = prev
+            psim.velocity_field[...] = _velocity(rng, "noise", d, pmeta["shape"], real_t)
+            _check_dt(rec, lambda p: call_dt(psim, p), psim.velocity_field, d, pdx, pnu, pcfl, real_t, rng, (kind, d, sh["dtype"], "after-sibling"),
+                      {**pmeta, "velocity": "noise", "object": "first-after-sibling"})
+            rec.count("sims_rechecked_after_sibling")
+        prev = (sim, meta0, dx, nu, cfl)
         if not kind.startswith("passive"):
             continue
         # maximum principle through the simulator: zero velocity, dt as recommended by the simulator
@@ -331,13 +373,23 @@ def _run_fn(sh, rec):
         vel = _velocity(rng, vk, d, shape, real_t)
         buf = util.sentinel_like(rng, shape, real_t)
         meta = {"class": "function", "dim": d, "dtype": sh["dtype"], "shape": shape, "dx": float(dx), "nu": nu, "cfl": cfl, "velocity": vk}
-        v0 = vel.copy()
 
-        def get(p, vel=vel, buf=buf, d=d, dx=dx, cfl=cfl, nu=nu):
+        # mixed argument types: dx as python float instead of real_t; a float64 velocity array (same values) handed to the
+        # real_t = float32 function (the magnitude buffer stays real_t, as in the simulators)
+        mode = it % 4
+        dx_arg = float(dx) if mode in (1, 3) else dx
+        vel_arg = vel.astype(np.float64) if (mode in (2, 3) and real_t is np.float32) else vel
+        if dx_arg is not dx:
+            rec.count("fn_calls_dx_python_float")
+        if vel_arg is not vel:
+            rec.count("fn_calls_float64_velocity_float32_real_t")
+        v0 = vel_arg.copy()
+
+        def get(p, vel=vel_arg, buf=buf, d=d, dx=dx_arg, cfl=cfl, nu=nu):
             return fn(velocity_field=vel, velocity_magnitude_field=buf, grid_dim=d, dx=dx, cfl=cfl, kinematic_viscosity=nu, real_t=real_t) * p
 
-        _check_dt(rec, get, vel, d, float(dx), nu, cfl, real_t, rng, ("function", d, sh["dtype"]), meta)
-        rec.check(util.bits_equal(vel, v0), "velocity-modified", f"the time-step function modified the velocity field {meta}", {"meta": meta})
+        _check_dt(rec, get, vel_arg, d, float(dx), nu, cfl, real_t, rng, ("function", d, sh["dtype"]), meta)
+        rec.check(util.bits_equal(vel_arg, v0), "velocity-modified", f"the time-step function modified the velocity field {meta}", {"meta": meta})
 
 
 def _run_mp(sh, rec):
@@ -353,6 +405,7 @@ def _run_mp(sh, rec):
     else:
         kernels = {ft: spne.gen_diffusion_timestep_euler_forward_pyst_kernel_3d(real_t=real_t, num_threads=2, field_type=ft) for ft in ("scalar", "vector")}
     nshape = 4 if tier == "quick" else 10
+    nmp = [0]
     for variant, kern in kernels.items():
         for k in range(nshape):
             shape = util.shape2d(rng, 3, 40) if d == 2 else util.shape3d(rng, 3, 18)
@@ -373,11 +426,16 @@ def _run_mp(sh, rec):
                     f = f0.copy()
                     flux = (1e3 * rng.standard_normal(shape)).astype(real_t)
                     meta = {"path": "kernel", "dim": d, "variant": variant, "dtype": sh["dtype"], "shape": shape, "field": fk, "alpha": float(alpha)}
+                    nmp[0] += 1
+                    a_arg = float(alpha) if nmp[0] % 2 else alpha  # same value as python float / as real_t
+                    rec.count("maxprinciple_alpha_python_float" if nmp[0] % 2 else "maxprinciple_alpha_real_t")
+                    if shape[0] > shape[-1]:
+                        rec.count("maxprinciple_steps_first_axis_longer_than_x")
                     try:
                         if variant == "scalar":
-                            kern(field=f, diffusion_flux=flux, nu_dt_by_dx2=alpha)
+                            kern(field=f, diffusion_flux=flux, nu_dt_by_dx2=a_arg)
                         else:
-                            kern(vector_field=f, diffusion_flux=flux, nu_dt_by_dx2=alpha)
+                            kern(vector_field=f, diffusion_flux=flux, nu_dt_by_dx2=a_arg)
                     except Exception as e:
                         rec.violation("diffusion-timestep-raises", f"{type(e).__name__}: {e} {meta}", {"meta": meta, "f": f0})
                         rec.case(None)
